@@ -578,7 +578,12 @@ MANIFEST = {
             "consecutive same-seqid pair with at least one base in between, coordinates, type, strand, per-key sorted union of "
             "attributes with joined IDs, numeric order, update_attributes). create_introns and create_splice_sites are run on "
             "generated GFF3 and GTF gene models and compared as multisets with the model applied to each transcript's "
-            "start-ordered exons, the splice-site labels following side x transcript strand. The inputs' printed form, an "
+            "start-ordered exons, the splice-site labels following side x transcript strand (also when the exons lie on the "
+            "other strand or carry '.'), the site strand following the two neighbouring exons; the sites of every splice case are "
+            "also compared with the two-base ends of the introns the real create_introns yields on the same database. Workload "
+            "classes include neighbours with exactly equal attribute dictionaries holding unsorted / repeated values, numeric IDs "
+            "whose numeric and text orders disagree (numeric_sort on and off) and exons strictly nested inside an earlier exon. "
+            "The inputs' printed form, an "
             "independent sqlite3 dump of the database and the SQL trace are compared before and after each call. "
             "Held = no executed case disagreed.",
     "note": "Trusted: gvmon/models/c15_gaps.py, the generators' rendering of GFF3/GTF lines, create_db (C01-C03 judge it). "
